@@ -661,3 +661,133 @@ func (r *Result) SortedBlocked() []string {
 	sort.Strings(b)
 	return b
 }
+
+// ---------------------------------------------------------------- atomics (import swap of sync/atomic)
+//
+// Every atomic operation is a scheduling point: code that reads shared state outside its mutex has to do
+// it atomically (or the race detector pass complains), and it is exactly between an Unlock and such a read
+// that another thread's whole critical section can fit.
+
+// Uint64 mirrors atomic.Uint64.
+type Uint64 struct{ v uint64 }
+
+func (x *Uint64) Load() uint64   { point("atomic", nil); return x.v }
+func (x *Uint64) Store(v uint64) { point("atomic", nil); x.v = v }
+func (x *Uint64) Add(d uint64) uint64 {
+	point("atomic", nil)
+	x.v += d
+	return x.v
+}
+func (x *Uint64) Swap(v uint64) uint64 { point("atomic", nil); o := x.v; x.v = v; return o }
+func (x *Uint64) CompareAndSwap(o, n uint64) bool {
+	point("atomic", nil)
+	if x.v == o {
+		x.v = n
+		return true
+	}
+	return false
+}
+
+// Int64 mirrors atomic.Int64.
+type Int64 struct{ v int64 }
+
+func (x *Int64) Load() int64   { point("atomic", nil); return x.v }
+func (x *Int64) Store(v int64) { point("atomic", nil); x.v = v }
+func (x *Int64) Add(d int64) int64 {
+	point("atomic", nil)
+	x.v += d
+	return x.v
+}
+func (x *Int64) Swap(v int64) int64 { point("atomic", nil); o := x.v; x.v = v; return o }
+func (x *Int64) CompareAndSwap(o, n int64) bool {
+	point("atomic", nil)
+	if x.v == o {
+		x.v = n
+		return true
+	}
+	return false
+}
+
+// Uint32 mirrors atomic.Uint32.
+type Uint32 struct{ v uint32 }
+
+func (x *Uint32) Load() uint32   { point("atomic", nil); return x.v }
+func (x *Uint32) Store(v uint32) { point("atomic", nil); x.v = v }
+func (x *Uint32) Add(d uint32) uint32 {
+	point("atomic", nil)
+	x.v += d
+	return x.v
+}
+func (x *Uint32) Swap(v uint32) uint32 { point("atomic", nil); o := x.v; x.v = v; return o }
+func (x *Uint32) CompareAndSwap(o, n uint32) bool {
+	point("atomic", nil)
+	if x.v == o {
+		x.v = n
+		return true
+	}
+	return false
+}
+
+// Int32 mirrors atomic.Int32.
+type Int32 struct{ v int32 }
+
+func (x *Int32) Load() int32   { point("atomic", nil); return x.v }
+func (x *Int32) Store(v int32) { point("atomic", nil); x.v = v }
+func (x *Int32) Add(d int32) int32 {
+	point("atomic", nil)
+	x.v += d
+	return x.v
+}
+func (x *Int32) Swap(v int32) int32 { point("atomic", nil); o := x.v; x.v = v; return o }
+func (x *Int32) CompareAndSwap(o, n int32) bool {
+	point("atomic", nil)
+	if x.v == o {
+		x.v = n
+		return true
+	}
+	return false
+}
+
+// Bool mirrors atomic.Bool.
+type Bool struct{ v bool }
+
+func (x *Bool) Load() bool       { point("atomic", nil); return x.v }
+func (x *Bool) Store(v bool)     { point("atomic", nil); x.v = v }
+func (x *Bool) Swap(v bool) bool { point("atomic", nil); o := x.v; x.v = v; return o }
+func (x *Bool) CompareAndSwap(o, n bool) bool {
+	point("atomic", nil)
+	if x.v == o {
+		x.v = n
+		return true
+	}
+	return false
+}
+
+// Pointer mirrors atomic.Pointer.
+type Pointer[T any] struct{ v *T }
+
+func (x *Pointer[T]) Load() *T     { point("atomic", nil); return x.v }
+func (x *Pointer[T]) Store(v *T)   { point("atomic", nil); x.v = v }
+func (x *Pointer[T]) Swap(v *T) *T { point("atomic", nil); o := x.v; x.v = v; return o }
+func (x *Pointer[T]) CompareAndSwap(o, n *T) bool {
+	point("atomic", nil)
+	if x.v == o {
+		x.v = n
+		return true
+	}
+	return false
+}
+
+// function forms
+func LoadUint64(p *uint64) uint64          { point("atomic", nil); return *p }
+func StoreUint64(p *uint64, v uint64)      { point("atomic", nil); *p = v }
+func AddUint64(p *uint64, d uint64) uint64 { point("atomic", nil); *p += d; return *p }
+func LoadInt64(p *int64) int64             { point("atomic", nil); return *p }
+func StoreInt64(p *int64, v int64)         { point("atomic", nil); *p = v }
+func AddInt64(p *int64, d int64) int64     { point("atomic", nil); *p += d; return *p }
+func LoadUint32(p *uint32) uint32          { point("atomic", nil); return *p }
+func StoreUint32(p *uint32, v uint32)      { point("atomic", nil); *p = v }
+func AddUint32(p *uint32, d uint32) uint32 { point("atomic", nil); *p += d; return *p }
+func LoadInt32(p *int32) int32             { point("atomic", nil); return *p }
+func StoreInt32(p *int32, v int32)         { point("atomic", nil); *p = v }
+func AddInt32(p *int32, d int32) int32     { point("atomic", nil); *p += d; return *p }
